@@ -549,7 +549,11 @@ impl BRC20ProgEngine {
                 last_block_info.log_index +=
                     output.as_ref().map(|o| o.logs()).unwrap_or(&[]).len() as u64;
                 last_block_info.total_processing_time = Some(
-                    (last_block_info.start_time.elapsed() - processing_start_time)
+                    // clear_caches may have restarted the clock in between: never underflow
+                    last_block_info
+                        .start_time
+                        .elapsed()
+                        .saturating_sub(processing_start_time)
                         + last_block_info
                             .total_processing_time
                             .unwrap_or(Duration::ZERO),
